@@ -806,6 +806,545 @@ theorem getLast?_append_dirTail (s : Str) (d : Bool) (h : d = false → s.getLas
   | true => simp [dirTail, bs]
   | false => simpa [dirTail] using h rfl
 
+/-! ## triple quotes in full: the passes as one recursion, and the tokenizer's look-ahead -/
+
+/-- a non-raw character as the triple-quote passes leave it (the quote itself is NOT escaped) -/
+def encT (T : Tables) (c : Char) : Str := if c = bs then [bs, bs] else (T.ctrl.lookup c).getD [c]
+
+/-- the escaped form of the three-quote sequence -/
+def rep3 (q : Char) : Str := [bs, q, bs, q, bs, q]
+
+/-- the triple-quote passes of a non-raw literal as ONE recursion (`k` = quotes of a matched triple still
+to be dropped) -/
+def enc3 (T : Tables) (q : Char) : Nat → Str → Str
+  | _, [] => []
+  | k + 1, _ :: r => enc3 T q k r
+  | 0, c :: r => if c = q ∧ r.take 2 = [q, q] then rep3 q ++ enc3 T q 2 r else encT T c ++ enc3 T q 0 r
+
+def dblc (c : Char) : Str := if c = bs then [bs, bs] else [c]
+
+theorem prefix_qq {q : Char} (hqb : q ≠ bs) (r : Str) :
+    [q, q].isPrefixOf (r.flatMap dblc) = decide (r.take 2 = [q, q]) := by
+  match r with
+  | [] => simp [List.isPrefixOf]
+  | [a] =>
+    by_cases ha : a = bs
+    · subst ha; simp [dblc, List.isPrefixOf, hqb]
+    · simp [dblc, ha, List.isPrefixOf]
+  | a :: b :: r' =>
+    by_cases ha : a = bs
+    · subst ha
+      have : (q == bs) = false := beq_eq_false_iff_ne.mpr hqb
+      simp [dblc, List.isPrefixOf, this, Ne.symm hqb]
+    · by_cases hb : b = bs
+      · subst hb
+        have : (q == bs) = false := beq_eq_false_iff_ne.mpr hqb
+        simp [dblc, ha, List.isPrefixOf, this, Ne.symm hqb]
+      · have hd1 : dblc a = [a] := by simp [dblc, ha]
+        have hd2 : dblc b = [b] := by simp [dblc, hb]
+        simp only [List.flatMap_cons, hd1, hd2, List.singleton_append, List.isPrefixOf, Bool.and_true, List.take_succ_cons,
+          List.take_zero]
+        by_cases e1 : q = a
+        · subst e1
+          by_cases e2 : q = b
+          · subst e2; simp
+          · have : (q == b) = false := beq_eq_false_iff_ne.mpr e2
+            simp [this, Ne.symm e2]
+        · have : (q == a) = false := beq_eq_false_iff_ne.mpr e1
+          simp [this, Ne.symm e1]
+
+theorem translate_append (tbl : List (Char × Str)) (a b : Str) :
+    translate tbl (a ++ b) = translate tbl a ++ translate tbl b := by
+  simp [translate, List.flatMap_append]
+
+theorem translate_cons (tbl : List (Char × Str)) (c : Char) (b : Str) :
+    translate tbl (c :: b) = (tbl.lookup c).getD [c] ++ translate tbl b := by
+  simp [translate, List.flatMap_cons]
+
+/-- the pipeline `translate ∘ replace('''…) ∘ double-backslashes` IS `enc3` -/
+theorem passes3 {T : Tables} (ok : TablesOk T) {q : Char} (hq : q = sq ∨ q = dq) (x : Str) (k : Nat)
+    (hk : ∀ c ∈ x.take k, c = q) :
+    translate T.ctrl (replaceGo [q, q, q] (rep3 q) k (x.flatMap dblc)) = enc3 T q k x := by
+  obtain ⟨hqb, _, _, _, hqk, _, _⟩ := quote_cases hq
+  have hb : T.ctrl.lookup bs = none := ok.notKey (by decide)
+  have hqn : T.ctrl.lookup q = none := ok.notKey hqk
+  induction x generalizing k with
+  | nil => cases k <;> simp [replaceGo, enc3, translate]
+  | cons c r ih =>
+    cases k with
+    | succ k =>
+      have hc : c = q := hk c (by simp)
+      subst hc
+      have : dblc c = [c] := by simp [dblc, hqb]
+      simp only [List.flatMap_cons, this, List.singleton_append, replaceGo, enc3]
+      apply ih
+      intro a ha
+      exact hk a (by simp only [List.take_succ_cons]; exact List.mem_cons_of_mem _ ha)
+    | zero =>
+      simp only [List.flatMap_cons, enc3]
+      by_cases h1 : c = bs
+      · subst h1
+        have hne : ¬(bs = q ∧ r.take 2 = [q, q]) := fun h => hqb h.1.symm
+        have hp1 : [q, q, q].isPrefixOf (bs :: bs :: r.flatMap dblc) = false := by
+          simp [List.isPrefixOf, hqb]
+        have hp2 : [q, q, q].isPrefixOf (bs :: r.flatMap dblc) = false := by
+          simp [List.isPrefixOf, hqb]
+        simp only [dblc, if_true, List.cons_append, List.nil_append, replaceGo, hp1, hp2, Bool.false_eq_true, if_false,
+          translate_cons, hb, Option.getD_none, hne, encT]
+        rw [ih 0 (by simp)]
+      · by_cases h2 : c = q
+        · subst h2
+          have hd : dblc c = [c] := by simp [dblc, hqb]
+          have hp : [c, c, c].isPrefixOf (c :: r.flatMap dblc) = decide (r.take 2 = [c, c]) := by
+            simp only [List.isPrefixOf, beq_self_eq_true, Bool.true_and]
+            exact prefix_qq hqb r
+          simp only [hd, List.singleton_append, replaceGo, hp, List.length_cons, List.length_nil]
+          by_cases ht : r.take 2 = [c, c]
+          · simp only [ht, decide_true, if_true, true_and, and_self]
+            rw [translate_append]
+            have hr : translate T.ctrl (rep3 c) = rep3 c := by
+              simp [rep3, translate, hb, hqn]
+            rw [hr]
+            congr 1
+            apply ih 2
+            intro a ha
+            rw [ht] at ha
+            simpa using ha
+          · simp only [ht, decide_false, Bool.false_eq_true, if_false, and_false, translate_cons, hqn, Option.getD_none]
+            rw [ih 0 (by simp)]
+            simp [encT, h1, hqn]
+        · have hd : dblc c = [c] := by simp [dblc, h1]
+          have hp : [q, q, q].isPrefixOf (c :: r.flatMap dblc) = false := by
+            simp [List.isPrefixOf, Ne.symm h2]
+          have hne : ¬(c = q ∧ r.take 2 = [q, q]) := fun h => h2 h.1
+          simp only [hd, List.singleton_append, replaceGo, hp, Bool.false_eq_true, if_false, translate_cons, hne]
+          rw [ih 0 (by simp)]
+          simp [encT, h1]
+
+
+theorem encT_head_ne {T : Tables} (ok : TablesOk T) {q : Char} (hq : q = sq ∨ q = dq) {c : Char} (hc : c ≠ q) :
+    (encT T c).head? ≠ some q ∧ encT T c ≠ [] := by
+  obtain ⟨hqb, _, _, _, _, _, _⟩ := quote_cases hq
+  unfold encT
+  by_cases h1 : c = bs
+  · simp [h1, Ne.symm hqb]
+  · simp only [h1, if_false]
+    cases hl : T.ctrl.lookup c with
+    | some w =>
+      obtain ⟨e, hv, _, _, _, _, _, _⟩ := ok.val hl
+      subst hv
+      simp [Ne.symm hqb]
+    | none => simp [hc]
+
+theorem enc3_zero_not (T : Tables) (q c : Char) (r : Str)
+    (h : ¬(c = q ∧ r.take 2 = [q, q])) : enc3 T q 0 (c :: r) = encT T c ++ enc3 T q 0 r := by
+  simp only [enc3, h, if_false]
+
+/-- the head of the encoding of a text that does not start with the quote is not the quote -/
+theorem enc3_head_ne {T : Tables} (ok : TablesOk T) {q : Char} (hq : q = sq ∨ q = dq) {c : Char} (r : Str) (hc : c ≠ q) :
+    (enc3 T q 0 (c :: r)).head? ≠ some q ∧ enc3 T q 0 (c :: r) ≠ [] := by
+  have hne : ¬(c = q ∧ r.take 2 = [q, q]) := fun h => hc h.1
+  obtain ⟨h1, h2⟩ := encT_head_ne ok hq hc
+  simp only [enc3, hne, if_false]
+  constructor
+  · cases he : encT T c with
+    | nil => exact absurd he h2
+    | cons a t => rw [he] at h1; simpa using h1
+  · cases he : encT T c with
+    | nil => exact absurd he h2
+    | cons a t => simp
+
+theorem scan3_encT {T : Tables} (ok : TablesOk T) {q : Char} (hq : q = sq ∨ q = dq) {c : Char} (hc : c ≠ q) (r : Str) :
+    scan3 q false (encT T c ++ r) = pushAll (encT T c) (scan3 q false r) := by
+  obtain ⟨hqb, _, _, _, _, _, _⟩ := quote_cases hq
+  unfold encT
+  by_cases h1 : c = bs
+  · simp [h1, scan3, pushAll]
+  · simp only [h1, if_false]
+    cases hl : T.ctrl.lookup c with
+    | some v =>
+      obtain ⟨e, hv, _, _, _, _, _, _⟩ := ok.val hl
+      subst hv
+      simp [scan3, pushAll]
+    | none =>
+      have : (c == q) = false := beq_eq_false_iff_ne.mpr hc
+      simp [scan3, pushAll, h1, this]
+
+theorem scan3_rep3 {q : Char} (hq : q = sq ∨ q = dq) (r : Str) :
+    scan3 q false (rep3 q ++ r) = pushAll (rep3 q) (scan3 q false r) := by
+  simp [rep3, scan3, pushAll]
+
+/-- the triple-quote tokenizer finds the closing quote right after the encoding of a text that does
+not END in the quote character -/
+theorem scan3_enc3 {T : Tables} (ok : TablesOk T) {q : Char} (hq : q = sq ∨ q = dq) (x rest : Str) (k : Nat)
+    (hl : x.getLast? ≠ some q) :
+    scan3 q false (enc3 T q k x ++ q :: q :: q :: rest) = some (enc3 T q k x, rest) := by
+  obtain ⟨hqb, _, _, _, _, _, _⟩ := quote_cases hq
+  induction x generalizing k with
+  | nil => cases k <;> simp [enc3, scan3, hqb]
+  | cons c r ih =>
+    have hlr : r.getLast? ≠ some q := by
+      cases r with
+      | nil => simp
+      | cons d r' => rwa [List.getLast?_cons_cons] at hl
+    cases k with
+    | succ k => simpa [enc3] using ih k hlr
+    | zero =>
+      by_cases ht : c = q ∧ r.take 2 = [q, q]
+      · simp only [enc3, ht, and_self, if_true, List.append_assoc]
+        rw [scan3_rep3 hq, ih 2 hlr, pushAll_some]
+      · simp only [enc3, ht, if_false, List.append_assoc]
+        by_cases hc : c = q
+        · subst hc
+          have hlq : T.ctrl.lookup c = none := ok.notKey (quote_cases hq).2.2.2.2.1
+          have henc : encT T c = [c] := by simp [encT, hqb, hlq]
+          have hnt : ¬ r.take 2 = [c, c] := fun h => ht ⟨rfl, h⟩
+          -- what follows the lone quote does not begin with two more quotes
+          have hnext : ((enc3 T c 0 r ++ c :: c :: c :: rest).take 2 == [c, c]) = false := by
+            apply beq_eq_false_iff_ne.mpr
+            match r, hl, hnt with
+            | [], hl, _ => simp at hl
+            | [d], hl, _ =>
+              have hd : d ≠ c := by
+                intro e; subst e; simp at hl
+              obtain ⟨h1, h2⟩ := enc3_head_ne ok hq [] hd
+              cases he : enc3 T c 0 [d] with
+              | nil => exact absurd he h2
+              | cons a t =>
+                rw [he] at h1
+                have : a ≠ c := by simpa using h1
+                cases t <;> simp [this]
+            | d :: e :: r', _, hnt =>
+              by_cases hd : d = c
+              · subst hd
+                have he : e ≠ d := by
+                  intro h; subst h; simp at hnt
+                have hne : ¬(d = d ∧ (e :: r').take 2 = [d, d]) := by
+                  intro h
+                  have := h.2
+                  simp only [List.take_succ_cons] at this
+                  cases r' <;> simp_all
+                obtain ⟨h1, h2⟩ := enc3_head_ne ok hq r' he
+                have hstep : enc3 T d 0 (d :: e :: r') = [d] ++ enc3 T d 0 (e :: r') := by
+                  rw [enc3_zero_not T d d (e :: r') hne, henc]
+                rw [hstep]
+                cases he' : enc3 T d 0 (e :: r') with
+                | nil => exact absurd he' h2
+                | cons a t =>
+                  rw [he'] at h1
+                  have : a ≠ d := by simpa using h1
+                  simp [this]
+              · obtain ⟨h1, h2⟩ := enc3_head_ne ok hq (e :: r') hd
+                cases he' : enc3 T c 0 (d :: e :: r') with
+                | nil => exact absurd he' h2
+                | cons a t =>
+                  rw [he'] at h1
+                  have : a ≠ c := by simpa using h1
+                  cases t <;> simp [this]
+          rw [henc]
+          simp only [List.singleton_append, scan3, hqb, beq_self_eq_true, Bool.true_and, hnext, Bool.false_eq_true,
+            if_false, beq_iff_eq]
+          rw [ih 0 hlr]; rfl
+        · rw [scan3_encT ok hq hc, ih 0 hlr, pushAll_some]
+
+theorem unescape_encT {T : Tables} (ok : TablesOk T) (c : Char) (r : Str) :
+    unescape false (encT T c ++ r) = (unescape false r).map (c :: ·) := by
+  unfold encT
+  by_cases h1 : c = bs
+  · subst h1; simp [unescape, simpleEscape]
+  · simp only [h1, if_false]
+    cases hl : T.ctrl.lookup c with
+    | some v =>
+      obtain ⟨e, hv, he, _, _, _, _, _⟩ := ok.val hl
+      subst hv
+      simp [unescape, he]
+    | none => simp [unescape, h1]
+
+/-- `ast.literal_eval` undoes the triple-quote encoding (`k` quotes of a matched triple are owed) -/
+theorem unescape_enc3 {T : Tables} (ok : TablesOk T) {q : Char} (hq : q = sq ∨ q = dq) (x : Str) (k : Nat) :
+    unescape false (enc3 T q k x) = some (x.drop k) := by
+  obtain ⟨hqb, _, _, _, _, _, hqe⟩ := quote_cases hq
+  induction x generalizing k with
+  | nil => cases k <;> simp [enc3, unescape]
+  | cons c r ih =>
+    cases k with
+    | succ k => simpa [enc3] using ih k
+    | zero =>
+      by_cases ht : c = q ∧ r.take 2 = [q, q]
+      · obtain ⟨hc, hr⟩ := ht
+        subst hc
+        simp only [enc3, hr, and_self, if_true, rep3, List.cons_append, List.nil_append, unescape, beq_self_eq_true,
+          if_true, hqe]
+        rw [ih 2]
+        have : r = c :: c :: r.drop 2 := by
+          conv => lhs; rw [← List.take_append_drop 2 r, hr]
+          rfl
+        simp only [Option.map_some, List.drop_zero]
+        rw [this]; simp
+      · simp only [enc3, ht, if_false]
+        rw [unescape_encT ok, ih 0]; simp
+
+theorem noBreak_encT {T : Tables} (ok : TablesOk T) {c : Char} (hc : unescapedBreaks.contains c = false) :
+    (encT T c).any isLineBreak = false := by
+  unfold encT
+  by_cases h1 : c = bs
+  · subst h1
+    have : isLineBreak bs = false := by decide
+    simp [this]
+  · simp only [h1, if_false]
+    cases hl : T.ctrl.lookup c with
+    | some v =>
+      obtain ⟨e, hv, _, hlb, _, _, _, _⟩ := ok.val hl
+      subst hv
+      have : isLineBreak bs = false := by decide
+      simp [this, hlb]
+    | none =>
+      simp only [Option.getD_none, List.any_cons, List.any_nil, Bool.or_false]
+      cases hb : isLineBreak c with
+      | false => rfl
+      | true =>
+        rcases lineBreak_cases hb with h | h
+        · have := ok.isKey c
+          rw [hl, h] at this
+          simp at this
+        · rw [hc] at h; exact absurd h (by decide)
+
+theorem noBreak_enc3 {T : Tables} (ok : TablesOk T) {q : Char} (hq : q = sq ∨ q = dq) (x : Str) (k : Nat)
+    (hx : x.any (fun c => unescapedBreaks.contains c) = false) :
+    (enc3 T q k x).any isLineBreak = false := by
+  obtain ⟨_, _, _, _, _, hql, _⟩ := quote_cases hq
+  induction x generalizing k with
+  | nil => cases k <;> simp [enc3]
+  | cons c r ih =>
+    simp only [List.any_cons, Bool.or_eq_false_iff] at hx
+    cases k with
+    | succ k => simpa [enc3] using ih k hx.2
+    | zero =>
+      by_cases ht : c = q ∧ r.take 2 = [q, q]
+      · simp only [enc3, ht, and_self, if_true]
+        apply any_append_false _ (ih 2 hx.2)
+        have : isLineBreak bs = false := by decide
+        simp [rep3, this, hql]
+      · simp only [enc3, ht, if_false]
+        exact any_append_false (noBreak_encT ok hx.1) (ih 0 hx.2)
+
+
+theorem replaceGo_not_infix (pat rep : Str) (hp : pat ≠ []) (y : Str) (h : isInfix pat y = false) :
+    replaceGo pat rep 0 y = y := by
+  induction y with
+  | nil => rfl
+  | cons c r ih =>
+    simp only [isInfix, Bool.or_eq_false_iff] at h
+    simp only [replaceGo, h.1, Bool.false_eq_true, if_false]
+    rw [ih h.2]
+
+theorem mem_replaceGo {pat rep : Str} {k : Nat} {y : Str} {c : Char} (h : c ∈ replaceGo pat rep k y) :
+    c ∈ rep ∨ c ∈ y := by
+  induction y generalizing k with
+  | nil => simp [replaceGo] at h
+  | cons a r ih =>
+    cases k with
+    | succ k =>
+      simp only [replaceGo] at h
+      rcases ih h with e | e
+      · exact Or.inl e
+      · exact Or.inr (List.mem_cons_of_mem _ e)
+    | zero =>
+      simp only [replaceGo] at h
+      split at h
+      · rcases List.mem_append.mp h with e | e
+        · exact Or.inl e
+        · rcases ih e with e | e
+          · exact Or.inl e
+          · exact Or.inr (List.mem_cons_of_mem _ e)
+      · rcases List.mem_cons.mp h with e | e
+        · subst e; exact Or.inr (List.mem_cons_self ..)
+        · rcases ih e with e | e
+          · exact Or.inl e
+          · exact Or.inr (List.mem_cons_of_mem _ e)
+
+/-- the conditional passes of a non-raw literal with a TRIPLE quote are `enc3` -/
+theorem escBody_nonraw3_full {T : Tables} (ok : TablesOk T) {q : Char} (hq : q = sq ∨ q = dq) (s0 : Str) (d : Bool) :
+    escBody T s0 [q, q, q] [q, q, q] (s0 ++ dirTail d) = enc3 T q 0 (s0 ++ dirTail d) := by
+  obtain ⟨hqb, _, hqs, _, hqk, _, _⟩ := quote_cases hq
+  have hraw : isRawStart [q, q, q] = false := by rcases hq with h | h <;> subst h <;> decide
+  have hrep : ([q, q, q].flatMap fun c => [bs, c]) = rep3 q := by simp [rep3]
+  have hdbl : ∀ x : Str, replaceAll [bs] [bs, bs] x = x.flatMap dblc := by
+    intro x; rw [replaceAll_single]; rfl
+  simp only [escBody, hraw, List.isEmpty_cons, Bool.not_false, Bool.false_and, Bool.true_and, Bool.false_eq_true,
+    if_false, if_true, hrep, hdbl]
+  generalize hx : s0 ++ dirTail d = x
+  have hpass2 : (if isInfix [q, q, q] (x.flatMap dblc) = true then replaceAll [q, q, q] (rep3 q) (x.flatMap dblc)
+      else x.flatMap dblc) = replaceGo [q, q, q] (rep3 q) 0 (x.flatMap dblc) := by
+    split
+    · simp [replaceAll]
+    · rename_i h
+      rw [replaceGo_not_infix _ _ (by simp) _ (by simpa using h)]
+  rw [hpass2]
+  by_cases hc : hasCtrl T s0 = true
+  · simp only [hc, if_true]
+    exact passes3 ok hq x 0 (by simp)
+  · have hc' : hasCtrl T s0 = false := by simpa using hc
+    simp only [hc', Bool.false_eq_true, if_false]
+    rw [← passes3 ok hq x 0 (by simp)]
+    unfold translate
+    symm
+    apply flatMap_id_of
+    intro c hcm
+    have hsrc : c = bs ∨ c = q ∨ c ∈ x := by
+      rcases mem_replaceGo hcm with e | e
+      · simp only [rep3, List.mem_cons, List.mem_nil_iff, or_false] at e
+        rcases e with e | e | e | e | e | e
+        · exact Or.inl e
+        · exact Or.inr (Or.inl e)
+        · exact Or.inl e
+        · exact Or.inr (Or.inl e)
+        · exact Or.inl e
+        · exact Or.inr (Or.inl e)
+      · obtain ⟨a, ha, hca⟩ := List.mem_flatMap.mp e
+        unfold dblc at hca
+        by_cases h1 : a = bs
+        · simp [h1] at hca; exact Or.inl hca
+        · simp [h1] at hca; subst hca; exact Or.inr (Or.inr ha)
+    have hnk : escapedCtrl.contains c = false := by
+      rcases hsrc with e | e | e
+      · subst e; decide
+      · subst e; exact hqk
+      · rw [← hx] at e
+        rcases List.mem_append.mp e with e | e
+        · rw [ok.hasCtrl_eq] at hc'
+          have := List.any_eq_false.mp hc' c e
+          simpa using this
+        · rw [mem_dirTail e]; decide
+    simp [ok.notKey hnk]
+
+/-- the triple-quote tokenizer on a RAW body without the literal three-quote sequence, not ending in the
+quote character or a backslash -/
+theorem scan3_raw_full {q : Char} (hq : q = sq ∨ q = dq) (v rest : Str) (esc : Bool)
+    (hinf : isInfix [q, q, q] v = false) (he : v = [] → esc = false) (hlb : v.getLast? ≠ some bs)
+    (hlq : v.getLast? ≠ some q) :
+    scan3 q esc (v ++ q :: q :: q :: rest) = some (v, rest) := by
+  obtain ⟨hqb, _, _, _, _, _, _⟩ := quote_cases hq
+  induction v generalizing esc with
+  | nil =>
+    rw [he rfl]
+    simp [scan3, hqb]
+  | cons c t ih =>
+    simp only [isInfix, Bool.or_eq_false_iff] at hinf
+    have hlbt : t.getLast? ≠ some bs := by
+      cases t with
+      | nil => simp
+      | cons d r => rwa [List.getLast?_cons_cons] at hlb
+    have hlqt : t.getLast? ≠ some q := by
+      cases t with
+      | nil => simp
+      | cons d r => rwa [List.getLast?_cons_cons] at hlq
+    cases esc with
+    | true =>
+      simp only [List.cons_append, scan3]
+      rw [ih false hinf.2 (fun _ => rfl) hlbt hlqt]; rfl
+    | false =>
+      by_cases hcb : c = bs
+      · subst hcb
+        have htne : t ≠ [] := by
+          intro h; subst h; simp at hlb
+        simp only [List.cons_append, scan3, beq_self_eq_true, if_true]
+        rw [ih true hinf.2 (fun h => absurd h htne) hlbt hlqt]; rfl
+      · by_cases hcq : c = q
+        · subst hcq
+          have hnext : ((t ++ c :: c :: c :: rest).take 2 == [c, c]) = false := by
+            apply beq_eq_false_iff_ne.mpr
+            have hp := hinf.1
+            match t, hlq, hp with
+            | [], hlq, _ => simp at hlq
+            | [d], hlq, _ =>
+              have : d ≠ c := by intro e; subst e; simp at hlq
+              simp [this]
+            | d :: e :: r', _, hp =>
+              simp only [List.isPrefixOf, beq_self_eq_true, Bool.true_and, Bool.and_true, Bool.and_eq_false_iff,
+                beq_eq_false_iff_ne, ne_eq] at hp
+              simp only [List.cons_append, List.take_succ_cons, List.take_zero, ne_eq, List.cons.injEq, and_true,
+                not_and]
+              intro h1 h2
+              rcases hp with h | h
+              · exact h h1.symm
+              · exact h h2.symm
+          simp only [List.cons_append, scan3, hcb, beq_self_eq_true, Bool.true_and, hnext, Bool.false_eq_true,
+            if_false, beq_iff_eq]
+          rw [ih false hinf.2 (fun _ => rfl) hlbt hlqt]; rfl
+        · have : (c == q) = false := beq_eq_false_iff_ne.mpr hcq
+          simp only [List.cons_append, scan3, beq_iff_eq, hcb, this, Bool.false_and, Bool.false_eq_true, if_false]
+          rw [ih false hinf.2 (fun _ => rfl) hlbt hlqt]; rfl
+
+theorem prefix_qq_snoc {q a : Char} (ha : a ≠ q) (r : Str) :
+    [q, q].isPrefixOf (r ++ [a]) = [q, q].isPrefixOf r := by
+  have hqa : (q == a) = false := beq_eq_false_iff_ne.mpr (Ne.symm ha)
+  match r with
+  | [] => simp [List.isPrefixOf, hqa]
+  | [d] => simp [List.isPrefixOf, hqa]
+  | d :: e :: r' => simp [List.isPrefixOf]
+
+/-- appending a character other than the quote creates no three-quote sequence -/
+theorem isInfix_qqq_snoc {q a : Char} (ha : a ≠ q) (s : Str) :
+    isInfix [q, q, q] (s ++ [a]) = isInfix [q, q, q] s := by
+  have hqa : (q == a) = false := beq_eq_false_iff_ne.mpr (Ne.symm ha)
+  induction s with
+  | nil => simp [isInfix, List.isPrefixOf, hqa]
+  | cons c r ih =>
+    simp only [List.cons_append, isInfix, ih]
+    congr 1
+    simp only [List.isPrefixOf]
+    rw [prefix_qq_snoc ha r]
+
+
+/-- reading a NON-raw triple-quoted literal produced by the triple-quote passes -/
+theorem readBack_nonraw3_full {T : Tables} (ok : TablesOk T) {q : Char} (hq : q = sq ∨ q = dq) (E : Env) (v sp : Str)
+    (hsp : sp.all (· == ' ') = true) (hv : v.any (fun c => unescapedBreaks.contains c) = false)
+    (hl : v.getLast? ≠ some q) (hexp : expandPath T E v = v) :
+    readBack T E (q :: q :: q :: (enc3 T q 0 v ++ q :: q :: q :: sp)) = .args [v] := by
+  obtain ⟨_, _, _, _, _, hql, _⟩ := quote_cases hq
+  have hnb : (q :: q :: q :: (enc3 T q 0 v ++ q :: q :: q :: sp)).any isLineBreak = false := by
+    simp only [List.any_cons, hql, Bool.false_or]
+    apply any_append_false (noBreak_enc3 ok hq v 0 hv)
+    simp only [List.any_cons, hql, Bool.false_or]
+    exact all_space_noBreak sp hsp
+  simp only [readBack, hnb, parseOpening_triple hq, Bool.false_eq_true, if_false, if_true, scan3_enc3 ok hq v sp 0 hl,
+    hsp, Bool.not_true, unescape_enc3 ok hq v 0, List.drop_zero, hexp]
+
+/-- reading a RAW triple-quoted literal whose body is the value itself (single quotes may occur in it) -/
+theorem readBack_raw3_full {T : Tables} {q : Char} (hq : q = sq ∨ q = dq) (E : Env) (v sp : Str)
+    (hsp : sp.all (· == ' ') = true) (hnb : v.any isLineBreak = false) (hinf : isInfix [q, q, q] v = false)
+    (hlb : v.getLast? ≠ some bs) (hlq : v.getLast? ≠ some q) :
+    readBack T E ('r' :: q :: q :: q :: (v ++ q :: q :: q :: sp)) = .args [v] := by
+  obtain ⟨_, _, _, _, _, hql, _⟩ := quote_cases hq
+  have hnb' : ('r' :: q :: q :: q :: (v ++ q :: q :: q :: sp)).any isLineBreak = false := by
+    have : isLineBreak 'r' = false := by decide
+    simp only [List.any_cons, hql, this, Bool.false_or]
+    apply any_append_false hnb
+    simp only [List.any_cons, hql, Bool.false_or]
+    exact all_space_noBreak sp hsp
+  simp only [readBack, hnb', parseOpening_raw_triple hq, Bool.false_eq_true, if_false, if_true,
+    scan3_raw_full hq v sp false hinf (fun _ => rfl) hlb hlq, hsp, Bool.not_true]
+
+theorem getLast?_append_dirTail_q {q : Char} (hq : q = sq ∨ q = dq) (s : Str) (d : Bool)
+    (h : d = false → s.getLast? ≠ some q) : (s ++ dirTail d).getLast? ≠ some q := by
+  obtain ⟨_, _, hqs, _, _, _, _⟩ := quote_cases hq
+  cases d with
+  | true =>
+    simp only [dirTail, if_true, List.getLast?_concat, ne_eq, Option.some.injEq]
+    exact fun e => hqs e.symm
+  | false => simpa [dirTail] using h rfl
+
+
+/-- without the six extra line boundaries in the text, both variants of the escape table escape the same characters -/
+theorem any_isCtrl (se : Bool) (s : Str) (hB : s.any (fun c => unescapedBreaks.contains c) = false) :
+    s.any (isCtrl se) = s.any (fun c => escapedCtrl.contains c) := by
+  induction s with
+  | nil => rfl
+  | cons c r ih =>
+    simp only [List.any_cons, Bool.or_eq_false_iff] at hB
+    simp only [List.any_cons, ih hB.2, isCtrl, hB.1, Bool.and_false, Bool.or_false]
+
 /-! ## the round trip per style, from the facts `styleClasses = []` provides -/
 
 theorem when_nil {b : Bool} {c : Cls} : PathQuote.when b c = [] ↔ b = false := by cases b <;> simp [PathQuote.when]
@@ -839,10 +1378,10 @@ theorem not_mem_append_dirTail {q : Char} (hq : q = sq ∨ q = dq) {s : Str} (d 
   · exact hqs (mem_dirTail e)
 
 /-- the user opened (or the completer chose) a one-character quote -/
-theorem core_q1 {T : Tables} (ok : TablesOk T) (E : Env) (name : Str) {q : Char} (hq : q = sq ∨ q = dq)
+theorem core_q1 {T : Tables} (ok : TablesOk T) (E : Env) (se : Bool) (name : Str) {q : Char} (hq : q = sq ∨ q = dq)
     (start0 : Str) (hst : start0 = [q] ∨ start0 = ['r', q]) (dfs ap : Bool)
     (hA : normName name = name) (hB : name.any (fun c => unescapedBreaks.contains c) = false)
-    (hg : styleClasses T E name start0 [q] dfs = []) :
+    (hg : styleClasses T E se name start0 [q] dfs = []) :
     readBack T E (regular T E name start0 [q] dfs ap ++ (if ap then [] else [q])) =
       .args [name ++ dirTail (isDirEff T E name name dfs)] := by
   obtain ⟨hqb, _, hqs, _, hqk, _, _⟩ := quote_cases hq
@@ -851,7 +1390,7 @@ theorem core_q1 {T : Tables} (ok : TablesOk T) (E : Env) (name : Str) {q : Char}
   have hne : start0.isEmpty = false := by rcases hst with h | h <;> subst h <;> rfl
   generalize hd : isDirEff T E name name dfs = d at *
   simp only [regular, hA, hd]
-  simp only [styleClasses, hA, hd, hne, Bool.false_and, Bool.false_eq_true, if_false, List.isEmpty_cons,
+  simp only [styleClasses, hA, any_isCtrl se name hB, hd, hne, Bool.false_and, Bool.false_eq_true, if_false, List.isEmpty_cons,
     Bool.not_false, Bool.true_and] at hg
   have hauto : autoQuote T name start0 [q] = (start0, [q]) := by simp [autoQuote, hne]
   have htail : tailOf [q] d = dirTail d := tailOf_quoted rfl d
@@ -912,10 +1451,10 @@ theorem core_q1 {T : Tables} (ok : TablesOk T) (E : Env) (name : Str) {q : Char}
     exact readBack_nonraw1 ok hq E (name ++ dirTail d) _ (sp_all d ap) (noUB_append_dirTail d hB) hexp
 
 /-- the user opened a triple quote (and the name does not contain that quote character) -/
-theorem core_q3 {T : Tables} (ok : TablesOk T) (E : Env) (name : Str) {q : Char} (hq : q = sq ∨ q = dq)
+theorem core_q3 {T : Tables} (ok : TablesOk T) (E : Env) (se : Bool) (name : Str) {q : Char} (hq : q = sq ∨ q = dq)
     (dfs : Bool) (hqn : q ∉ name)
     (hA : normName name = name) (hB : name.any (fun c => unescapedBreaks.contains c) = false)
-    (hg : styleClasses T E name [q, q, q] [q, q, q] dfs = []) :
+    (hg : styleClasses T E se name [q, q, q] [q, q, q] dfs = []) :
     readBack T E (regular T E name [q, q, q] [q, q, q] dfs true) =
       .args [name ++ dirTail (isDirEff T E name name dfs)] := by
   obtain ⟨hqb, _, hqs, _, hqk, _, _⟩ := quote_cases hq
@@ -923,7 +1462,7 @@ theorem core_q3 {T : Tables} (ok : TablesOk T) (E : Env) (name : Str) {q : Char}
   have hr2 : isRawStart ['r', q, q, q] = true := by simp [isRawStart]
   generalize hd : isDirEff T E name name dfs = d at *
   simp only [regular, hA, hd]
-  simp only [styleClasses, hA, hd, Bool.false_and, Bool.false_eq_true, if_false, List.isEmpty_cons,
+  simp only [styleClasses, hA, any_isCtrl se name hB, hd, Bool.false_and, Bool.false_eq_true, if_false, List.isEmpty_cons,
     Bool.not_false, Bool.true_and, hr1, Bool.false_or] at hg
   have hauto : autoQuote T name [q, q, q] [q, q, q] = ([q, q, q], [q, q, q]) := by simp [autoQuote]
   have htail : tailOf [q, q, q] d = dirTail d := tailOf_quoted rfl d
@@ -988,9 +1527,9 @@ theorem plain_chars {T : Tables} (ok : TablesOk T) {s : Str} (hn : needsQuotes T
   · exact h1 c hc e
 
 /-- nothing opened -/
-theorem core_bare {T : Tables} (ok : TablesOk T) (E : Env) (name : Str) (hname : name ≠ []) (dfs : Bool)
+theorem core_bare {T : Tables} (ok : TablesOk T) (E : Env) (se : Bool) (name : Str) (hname : name ≠ []) (dfs : Bool)
     (hA : normName name = name) (hB : name.any (fun c => unescapedBreaks.contains c) = false)
-    (hg : styleClasses T E name [] [] dfs = []) :
+    (hg : styleClasses T E se name [] [] dfs = []) :
     readBack T E (regular T E name [] [] dfs true) = .args [name ++ dirTail (isDirEff T E name name dfs)] := by
   by_cases hn : needsQuotes T name = true
   · -- the completer chooses a quote itself: as if the user had opened it
@@ -998,18 +1537,18 @@ theorem core_bare {T : Tables} (ok : TablesOk T) (E : Env) (name : Str) (hname :
     have hreg : regular T E name [] [] dfs true = regular T E name (quoteToUseRef name) (quoteToUseRef name) dfs true := by
       simp only [regular, hA]
       rw [quoteOne_auto _ _ _ hn (by rw [hqu]; rcases quoteToUseRef_cases name with h | h <;> rw [h] <;> rfl), hqu]
-    have hcls : styleClasses T E name (quoteToUseRef name) (quoteToUseRef name) dfs = [] := by
+    have hcls : styleClasses T E se name (quoteToUseRef name) (quoteToUseRef name) dfs = [] := by
       rw [← hg]
       rcases quoteToUseRef_cases name with h | h <;>
         simp [styleClasses, hA, hn, h]
     rw [hreg]
     rcases quoteToUseRef_cases name with h | h <;> rw [h] at hcls ⊢
-    · simpa using core_q1 ok E name (Or.inl rfl) [sq] (Or.inl rfl) dfs true hA hB hcls
-    · simpa using core_q1 ok E name (Or.inr rfl) [dq] (Or.inl rfl) dfs true hA hB hcls
+    · simpa using core_q1 ok E se name (Or.inl rfl) [sq] (Or.inl rfl) dfs true hA hB hcls
+    · simpa using core_q1 ok E se name (Or.inr rfl) [dq] (Or.inl rfl) dfs true hA hB hcls
   · have hn' : needsQuotes T name = false := by simpa using hn
     have hsafe := plain_chars ok hn'
     generalize hd : isDirEff T E name name dfs = d at *
-    simp only [styleClasses, hA, hd, hn', Bool.and_false, Bool.false_eq_true, if_false, List.isEmpty_nil, if_true,
+    simp only [styleClasses, hA, any_isCtrl se name hB, hd, hn', Bool.and_false, Bool.false_eq_true, if_false, List.isEmpty_nil, if_true,
       List.append_eq_nil_iff, when_nil] at hg
     obtain ⟨⟨⟨h1, h2⟩, h3⟩, h4⟩ := hg
     have hv : (if d = true then ['/'] else ([] : Str)) = dirTail d := rfl
@@ -1072,5 +1611,77 @@ theorem core_bare {T : Tables} (ok : TablesOk T) (E : Env) (name : Str) (hname :
       have := readBack_bare (T := T) E (name ++ ['/']) [] (Or.inl rfl) hw hsafe' hnb' (bangSplit_snoc_slash name hbang)
         hodd' hkw' (pyStmt_snoc_slash name hname h3) (by simpa [dirTail] using hexp)
       simpa [dirTail] using this
+
+
+/-- the user opened a triple quote -/
+theorem core_q3_full {T : Tables} (ok : TablesOk T) (E : Env) (se : Bool) (name : Str) {q : Char} (hq : q = sq ∨ q = dq)
+    (dfs ap : Bool)
+    (hA : normName name = name) (hB : name.any (fun c => unescapedBreaks.contains c) = false)
+    (hg : styleClasses T E se name [q, q, q] [q, q, q] dfs = []) :
+    readBack T E (regular T E name [q, q, q] [q, q, q] dfs ap ++ (if ap then [] else [q, q, q])) =
+      .args [name ++ dirTail (isDirEff T E name name dfs)] := by
+  obtain ⟨hqb, _, hqs, _, hqk, _, _⟩ := quote_cases hq
+  have hr1 : isRawStart [q, q, q] = false := by rcases hq with h | h <;> subst h <;> decide
+  have hr2 : isRawStart ['r', q, q, q] = true := by simp [isRawStart]
+  generalize hd : isDirEff T E name name dfs = d at *
+  simp only [regular, hA, hd]
+  simp only [styleClasses, hA, any_isCtrl se name hB, hd, Bool.false_and, Bool.false_eq_true, if_false, List.isEmpty_cons,
+    Bool.not_false, Bool.true_and, hr1, Bool.false_or] at hg
+  have hauto : autoQuote T name [q, q, q] [q, q, q] = ([q, q, q], [q, q, q]) := by simp [autoQuote]
+  have htail : tailOf [q, q, q] d = dirTail d := tailOf_quoted rfl d
+  have hv : (if d = true then ['/'] else ([] : Str)) = dirTail d := rfl
+  rw [hv] at hg
+  have hwrap : ∀ (start body : Str), wrap start [q, q, q] body d ap ++ (if ap then [] else [q, q, q]) =
+      start ++ (body ++ q :: q :: q :: (if !d && ap then [' '] else [])) := by
+    intro start body
+    rw [wrap_text _ _ [q, q, q] d ap rfl]; simp
+  have hsp : (if !d && ap then [' '] else ([] : Str)).all (· == ' ') = true := sp_all d ap
+  have hlastq : ∀ (h4 : ([q, q, q].length == 3 && !d && name.getLast? == some ([q, q, q].head?.getD sq)) = false),
+      (name ++ dirTail d).getLast? ≠ some q := by
+    intro h4
+    apply getLast?_append_dirTail_q hq
+    intro hdf hl
+    rw [hdf, hl] at h4
+    simp at h4
+  by_cases hraw : ((name.contains bs || name.contains '$') && !(name.any fun c => escapedCtrl.contains c)) = true
+  · simp only [hraw, if_true, List.append_eq_nil_iff, when_nil] at hg
+    obtain ⟨⟨⟨⟨⟨h1, h2⟩, h3⟩, h4⟩, _⟩, _⟩ := hg
+    have heff : effStart T name [q, q, q] = ['r', q, q, q] := by
+      have : needsRaw T name = true := by rw [needsRaw_eq ok]; exact hraw
+      simp [effStart, hr1, this]
+    have hctrl : hasCtrl T name = false := by rw [ok.hasCtrl_eq]; exact h3
+    have hlast : (name ++ dirTail d).getLast? ≠ some bs := by
+      apply getLast?_append_dirTail
+      intro hdf
+      rw [hdf] at h1
+      intro hl
+      have := (endsWith_bs_iff name).mpr hl
+      simp [this] at h1
+    have hinf : isInfix [q, q, q] (name ++ dirTail d) = false := by
+      cases d with
+      | false => simpa [dirTail] using h2
+      | true =>
+        simp only [dirTail, if_true]
+        rw [isInfix_qqq_snoc (Ne.symm hqs)]; exact h2
+    have hbody : escBody T name ['r', q, q, q] [q, q, q] (name ++ dirTail d) = name ++ dirTail d := by
+      apply escBody_raw _ _ _ _ _ hinf hctrl hr2
+      cases hh : endsWith (name ++ dirTail d) [bs] with
+      | false => rfl
+      | true => exact absurd ((endsWith_bs_iff _).mp hh) hlast
+    simp only [quoteOne, hauto, heff, htail, hbody, hwrap]
+    exact readBack_raw3_full hq E (name ++ dirTail d) _ hsp (noBreak_append_dirTail d (noBreak_of hB h3))
+      hinf hlast (hlastq h4)
+  · have hraw' : ((name.contains bs || name.contains '$') && !(name.any fun c => escapedCtrl.contains c)) = false := by
+      simpa using hraw
+    simp only [hraw', Bool.false_eq_true, if_false, List.append_eq_nil_iff, when_nil] at hg
+    obtain ⟨⟨h1, h2⟩, h4⟩ := hg
+    have hnr : needsRaw T name = false := by rw [needsRaw_eq ok]; exact hraw'
+    have heff : effStart T name [q, q, q] = [q, q, q] := by simp [effStart, hnr]
+    have hexp : expandPath T E (name ++ dirTail d) = name ++ dirTail d := by
+      have e1 : expandVars T E (name ++ dirTail d) = name ++ dirTail d := by simpa using h1
+      simpa [e1] using h2
+    simp only [quoteOne, hauto, heff, htail, escBody_nonraw3_full ok hq name d, hwrap]
+    exact readBack_nonraw3_full ok hq E (name ++ dirTail d) _ hsp (noUB_append_dirTail d hB) (hlastq h4) hexp
+
 
 end PathQuote
